@@ -519,3 +519,90 @@ def gen_immutable(rng):
     for off in offs:
         assert code[off - 1] == 0x7F and code[off:off + 32] == bytes(32), "hole offset"
     return Scenario({MAIN: code}, nargs=nargs, immutables={MAIN: offs}), hist
+
+
+DIRTY = [2, 4, 6, 0x80, 0x100, 0x17F, 0x1234, 0x7FFF, 0x8000, 0xFF00, 0x10000, 1 << 255, (1 << 255) + 2, W - 1, W - 2, W - 256,
+         (1 << 160) + 5, 0xFFFF_FFFF_0000_0000, 31, 32, 33, 255, 256, 0, 1, 3, 7]
+
+
+def wordmix_plan():
+    """every instruction x every tuple of operand representations over {bool, dirty, arg} except all-arg (ternary: a sample)"""
+    import itertools
+
+    plan = []
+    for op in BIN + UN + TER:
+        arity = 1 if op in UN else 3 if op in TER else 2
+        tuples = [t for t in itertools.product(["bool", "dirty", "arg"], repeat=arity) if set(t) != {"arg"}]
+        if arity == 3:
+            tuples = tuples[::4]
+        plan += [(op, t) for t in tuples]
+    return plan
+
+
+def gen_wordmix(rng, forced=None):
+    """one word instruction applied to operands of MIXED representation inside a program, the result observed both as data
+    and through a branch: each operand is a Bool-typed item (a comparison result), a run-time-concrete word with 'dirty' high /
+    low bits (so that the concrete fast paths of bitvec.py run), a calldata word, or a small constant; then
+    `if (r == a1) return (1, r) else return (2, r)` (a1 symbolic: both sides feasible, the equality pins the real value of r).
+    Directed use: called with a forced (op, representation tuple) by the callers' iterators, random otherwise."""
+    ops = BIN + UN + TER
+    op = forced[0] if forced else rng.choice(ops)
+    arity = 1 if op in UN else 3 if op in TER else 2
+    arg0 = [("push", 4), "CALLDATALOAD"]
+    arg1 = [("push", 0x24), "CALLDATALOAD"]
+
+    def operand(kind):
+        if kind == "bool":
+            cmpop = rng.choice(["LT", "GT", "EQ", "SLT", "SGT", "ISZERO"])
+            if cmpop == "ISZERO":
+                return arg0 + ["ISZERO"]
+            return [("push", rng.choice([0, 1, 5, 0x80, W - 1]))] + arg0 + [cmpop]
+        if kind == "dirty":
+            return [("push", rng.choice(DIRTY) % W)]
+        if kind == "arg":
+            return list(arg0)
+        return [("push", rng.choice([0, 1, 2, 7, 8, 15, 30, 31, 32]))]
+
+    kinds = list(forced[1]) if forced else [rng.choice(["bool", "dirty", "dirty", "arg", "small"]) for _ in range(arity)]
+    if op in ("SHL", "SHR", "SAR", "BYTE", "SIGNEXTEND") and (kinds[0] == "dirty" or rng.random() < 0.5):
+        kinds[0] = "small"                       # first operand (top of stack) = shift amount / byte index / size
+    if op == "EXP" and kinds[1] != "bool":
+        kinds[1] = "small"                       # exponent
+    body = []
+    for k in reversed(kinds):                    # first operand ends on top of the stack
+        body += operand(k)
+    body += [op, "DUP1", ("push", 0x20), "MSTORE"]                      # mem[0x20] = r ; r stays on the stack
+    body += arg1 + ["EQ", ("ref", "A"), "JUMPI",
+                    ("push", 2), ("push", 0), "MSTORE", ("push", 0x40), ("push", 0), "RETURN",
+                    ("label", "A"), ("push", 1), ("push", 0), "MSTORE", ("push", 0x40), ("push", 0), "RETURN"]
+    hist = {f"wordmix:{op}": 1, "wordmix:" + "+".join(sorted(kinds)): 1}
+    return Scenario({MAIN: asm.assemble(body)}, nargs=2), hist
+
+
+GRID = [0, 1, 2, 3, 5, 6, 0x7F, 0x80, 0xFF, 0x100, 0x17F, 0x1234, 0x8000, W - 1, W - 2, W - 3, W - 6, 1 << 255, (1 << 255) + 2, W - 256]
+GRID_SMALL = [0, 1, 2, 7, 8, 15, 30, 31, 32, 255, 256]
+
+
+def gen_concrete_grid(rng, op):
+    """one program per instruction that applies it to a whole grid of run-time-CONCRETE operand tuples (boundary and 'dirty'
+    words; small first operands for the shift / byte / sign-extension family; small exponents) and returns every result:
+    the concrete fast paths of the word operations, exercised inside SEVM.run and compared with the reference EVM word by word"""
+    arity = 1 if op in UN else 3 if op in TER else 2
+    if arity == 1:
+        tuples = [(x,) for x in GRID]
+    elif arity == 3:
+        g = [0, 1, 2, 5, 0x100, W - 1, W - 2, 1 << 255]
+        tuples = [(a, b, c) for a in g for b in g for c in g[:6]]
+    elif op in ("SHL", "SHR", "SAR", "BYTE", "SIGNEXTEND"):
+        tuples = [(a, b) for a in GRID_SMALL for b in GRID]
+    elif op == "EXP":
+        tuples = [(a, b) for a in GRID for b in [0, 1, 2, 3, 5, 255, 256]]
+    else:
+        tuples = [(a, b) for a in GRID for b in GRID]
+    items = []
+    for i, t in enumerate(tuples):
+        for v in reversed(t):                     # first operand ends on top of the stack
+            items.append(("push", v % W))
+        items += [op, ("push", 32 * i), "MSTORE"]
+    items += [("push", 32 * len(tuples)), ("push", 0), "RETURN"]
+    return Scenario({MAIN: asm.assemble(items)}, nargs=1), {f"concrete-grid:{op}": 1, "concrete-grid:tuples": len(tuples)}
